@@ -19,18 +19,19 @@ VARIABLES enabled, threaded, started,   \* configuration as the calls made it
           backlog,       \* bytes of messages logged and not yet written
           written,       \* ids written, in order of the writes
           mayDrop,       \* ids whose call may have found the backlog over the limit
+          mdu,           \* how many of them are not written (kept as a counter: traces are long)
           opt,           \* ids the property no longer demands (control operation while pending)
           lostRep,       \* sum of the "N messages lost" reports
           cur,           \* call in progress, 0 = none
           fin            \* qb_log_fini has returned
-fvars == <<enabled, threaded, started, called, size, backlog, written, mayDrop, opt, lostRep, cur, fin>>
+fvars == <<enabled, threaded, started, called, size, backlog, written, mayDrop, mdu, opt, lostRep, cur, fin>>
 
 OP_INIT == 1  OP_SETTHREADED == 2  OP_ENABLE == 3  OP_CONF == 4  OP_CLOSE == 5  OP_START == 6  OP_LOG == 7  OP_FINI == 8
 Range(s) == {s[i] : i \in DOMAIN s}
 PendingF == (1..called) \ Range(written)
 
 FInit == /\ enabled = FALSE /\ threaded = FALSE /\ started = FALSE /\ called = 0 /\ size = <<>> /\ backlog = 0
-         /\ written = <<>> /\ mayDrop = {} /\ opt = {} /\ lostRep = 0 /\ cur = 0 /\ fin = FALSE
+         /\ written = <<>> /\ mayDrop = {} /\ mdu = 0 /\ opt = {} /\ lostRep = 0 /\ cur = 0 /\ fin = FALSE
 
 Inv(op, arg, sz) ==
   /\ cur = 0 /\ cur' = op /\ ~fin
@@ -38,41 +39,44 @@ Inv(op, arg, sz) ==
             /\ enabled /\ threaded /\ started /\ arg = called + 1
             /\ called' = arg /\ size' = Append(size, sz) /\ backlog' = backlog + sz
             /\ mayDrop' = IF backlog + sz > LimitBytes THEN mayDrop \cup {arg} ELSE mayDrop
+            /\ mdu' = IF backlog + sz > LimitBytes THEN mdu + 1 ELSE mdu
             /\ UNCHANGED <<enabled, threaded, started, opt>>
        [] op = OP_ENABLE ->
             /\ enabled' = (arg = 1) /\ opt' = IF arg = 1 THEN opt ELSE opt \cup PendingF
-            /\ UNCHANGED <<threaded, started, called, size, backlog, mayDrop>>
+            /\ UNCHANGED <<threaded, started, called, size, backlog, mayDrop, mdu>>
        [] op = OP_SETTHREADED ->
             /\ threaded' = (arg = 1) /\ opt' = IF arg = 1 THEN opt ELSE opt \cup PendingF
-            /\ UNCHANGED <<enabled, started, called, size, backlog, mayDrop>>
+            /\ UNCHANGED <<enabled, started, called, size, backlog, mayDrop, mdu>>
        [] op = OP_CLOSE ->
             /\ enabled' = FALSE /\ opt' = opt \cup PendingF
-            /\ UNCHANGED <<threaded, started, called, size, backlog, mayDrop>>
+            /\ UNCHANGED <<threaded, started, called, size, backlog, mayDrop, mdu>>
        [] op = OP_START ->
-            /\ started' = TRUE /\ UNCHANGED <<enabled, threaded, called, size, backlog, mayDrop, opt>>
+            /\ started' = TRUE /\ UNCHANGED <<enabled, threaded, called, size, backlog, mayDrop, mdu, opt>>
        [] op \in {OP_INIT, OP_CONF, OP_FINI} ->
-            UNCHANGED <<enabled, threaded, started, called, size, backlog, mayDrop, opt>>
+            UNCHANGED <<enabled, threaded, started, called, size, backlog, mayDrop, mdu, opt>>
   /\ UNCHANGED <<written, lostRep, fin>>
 
 Ret(op, rc) ==
   /\ cur = op /\ cur' = 0 /\ rc = 0
   /\ fin' = (op = OP_FINI)
-  /\ UNCHANGED <<enabled, threaded, started, called, size, backlog, written, mayDrop, opt, lostRep>>
+  /\ UNCHANGED <<enabled, threaded, started, called, size, backlog, written, mayDrop, mdu, opt, lostRep>>
 
 Write(m) ==
   /\ ~fin /\ started
   /\ m \in 1..called
   /\ (written # <<>> => m > written[Len(written)])
   /\ written' = Append(written, m) /\ backlog' = backlog - size[m]
+  /\ mdu' = IF m \in mayDrop THEN mdu - 1 ELSE mdu
   /\ UNCHANGED <<enabled, threaded, started, called, size, mayDrop, opt, lostRep, cur, fin>>
 
 Lost(n) ==
   /\ ~fin /\ n > 0 /\ lostRep' = lostRep + n
-  /\ UNCHANGED <<enabled, threaded, started, called, size, backlog, written, mayDrop, opt, cur, fin>>
+  /\ UNCHANGED <<enabled, threaded, started, called, size, backlog, written, mayDrop, mdu, opt, cur, fin>>
 
 Unwritten == (1..called) \ Range(written)
 DeliveredAtFini ==
   fin => /\ Unwritten \subseteq (mayDrop \cup opt)
          /\ Cardinality(Unwritten \ opt) <= lostRep
-NeverOverReportedF == lostRep <= Cardinality(mayDrop \ Range(written))
+NeverOverReportedF == lostRep <= mdu
+CounterOK == fin => mdu = Cardinality(mayDrop \ Range(written))
 =============================================================================
